@@ -126,6 +126,19 @@ func HarnessC02_Zones() {
 		d.Ingesters[id] = InstanceDesc{Id: id, Addr: id, Zone: zone, State: ACTIVE, Timestamp: ts,
 			RegisteredTimestamp: 7, Tokens: []uint32{uint32(1000 * (i + 1))}}
 	}
+	// optionally one more registered instance that owns no tokens (yet), in any
+	// state, in one of the zones or in a zone of its own
+	if vfParam("tokenless", 1) == 1 && vfChoice("tokenless", 2) == 1 {
+		st := InstanceState(vfI32("state_x"))
+		vfAssume(vfAnd(st >= ACTIVE, st <= JOINING))
+		ts := vfI64("ts_x")
+		vfAssume(vfAnd(ts >= now-1000, ts <= now))
+		zone := ""
+		if zoneAware {
+			zone = string(rune('a' + vfChoice("zone_x", nz+1)))
+		}
+		d.Ingesters["x"] = InstanceDesc{Id: "x", Addr: "x", Zone: zone, State: st, Timestamp: ts, RegisteredTimestamp: 7}
+	}
 	r := vfMkRing(d, rf, zoneAware, time.Minute)
 	key := vfU32("key")
 	ws, werr := r.Get(key, Write, nil, nil, nil)
